@@ -281,8 +281,8 @@ fn check_tuned(c: &LoopCase) -> Verdict {
 }
 
 fn groups(g: &mut Groups) {
-    g.prop("tuned", 9_000, 100_000, || super::c19::case(), check_tuned);
+    g.prop("tuned", 9_000, 500_000, || super::c19::case(), check_tuned);
     g.enumerate("ties", ties, false, check_case);
     g.enumerate("one_ns_floor", floor_cases, false, check_case);
-    g.prop("random", 60_000, 600_000, || case(), check_case);
+    g.prop("random", 60_000, 3_000_000, || case(), check_case);
 }
